@@ -189,9 +189,14 @@ def external_diff_render(cmd, a, b):
         output, errors = p.communicate()
         status = p.returncode
         output = output.decode('utf8', 'surrogatepass')
+        # Drop the tool's own "\ No newline at end of file" notes: at most
+        # one per text lacking a final newline, and the last ones printed
+        # (the texts themselves may contain lines that read the same)
         r = re.compile(r"^\\ No newline at end of file\n?", flags=re.M)
-        output, n = r.subn("", output)
-        assert n <= 2, 'unexpected output from external diff renderer'
+        expected = sum(1 for t in (a, b) if t and not t.endswith('\n'))
+        matches = list(r.finditer(output))
+        for m in reversed(matches[max(0, len(matches) - expected):]):
+            output = output[:m.start()] + output[m.end():]
     finally:
         shutil.rmtree(td)
     return output, status
